@@ -374,6 +374,9 @@ def build(prop):
         res["log"] += out[-12000:]
         # attribute errors to theorems: "error: path:line:col" -> enclosing theorem
         res["failed_theorems"] = attribute_errors(out)
+        # which property modules still build on their own: their theorems stay discharged (a broken generated file of
+        # one part must not zero the count of the parts that do not import it)
+        res["ok_modules"] = [m for m in props_modules(prop) if sh(["lake", "build", m], cwd=LEAN)[0] == 0]
     return res
 
 
@@ -397,13 +400,19 @@ def attribute_errors(out):
     return sorted(set(failed))
 
 
-def audit(prop):
-    """#print axioms for every property theorem. Returns (ok_names, bad, log)."""
-    names = theorem_names(prop)
+def audit(prop, modules=None):
+    """#print axioms for every property theorem (of `modules` only, when given). Returns (names, ok_names, bad, axioms, log)."""
+    if modules is None:
+        modules = props_modules(prop)
+        names = theorem_names(prop)
+    else:
+        names = []
+        for mod in modules:
+            names += _theorem_names_in((LEAN / (mod.replace(".", "/") + ".lean")).read_text())
     adir = LEAN / ".lake" / "audit"
     adir.mkdir(parents=True, exist_ok=True)
     f = adir / ("Audit_%s.lean" % prop)
-    f.write_text("".join("import %s\n" % m for m in props_modules(prop)) + "".join("#print axioms %s\n" % n for n in names))
+    f.write_text("".join("import %s\n" % m for m in modules) + "".join("#print axioms %s\n" % n for n in names))
     rc, out = sh(["lake", "env", "lean", str(f)], cwd=LEAN)
     ok, bad = [], []
     # output: "'name' depends on axioms: [a, b]" or "'name' does not depend on any axioms"
@@ -496,6 +505,10 @@ def run_check(prop, tier, seed, replay=None):
                 names = theorem_names(prop)
             except Exception:
                 names = []
+            if b.get("ok_modules"):
+                _, ok_names, bad, axioms_used, alog = audit(prop, b["ok_modules"])
+                for n, ax in bad:
+                    obligations_broken.append("%s uses axioms %s" % (n, ax))
         forb = grep_forbidden(prop)
         for h in forb:
             obligations_broken.append("forbidden construct: " + h)
@@ -560,7 +573,7 @@ def run_check(prop, tier, seed, replay=None):
                             "seed": seed, "tier": tier})
 
     n_obl = len(names)
-    discharged = len(ok_names) if b["props_ok"] else 0
+    discharged = len(ok_names)  # when the build is broken: the theorems of the property modules that still build (see build())
     ev = {
         "property_id": prop,
         "tier": tier,
